@@ -165,6 +165,139 @@ def char_operand(expr, what):
     raise TranslateError(f"{what}: unexpected operand {expr!r}")
 
 
+
+def reserve_expr(e):
+    """`E` of result.reserve(E): integer arithmetic over `inlen` (+ - * / and literals)"""
+    toks = re.findall(r"0[xX][0-9a-fA-F]+[uUlL]*|\d+[uUlL]*|[A-Za-z_]\w*|[()+\-*/]", e)
+    if "".join(toks) != re.sub(r"\s+", "", e):
+        raise TranslateError(f"fromBase64 reserve: untranslatable expression {e!r}")
+    res = []
+    for t in toks:
+        if re.match(r"\d", t):
+            t = re.sub(r"[uUlL]+$", "", t)
+            res.append(str(int(t, 0)))
+        elif t == "inlen" or t in "()+-*/":
+            res.append(t)
+        else:
+            raise TranslateError(f"fromBase64 reserve: unknown identifier {t} in {e!r}")
+    return " ".join(res)
+
+
+def split_statements(text):
+    """statements of a block: ('if', cond, [stmts]) | ('simple', text)"""
+    pos = [0]
+    n = len(text)
+
+    def ws():
+        while pos[0] < n and text[pos[0]].isspace():
+            pos[0] += 1
+
+    def balanced(open_, close):
+        depth, i = 0, pos[0]
+        while i < n:
+            if text[i] == open_:
+                depth += 1
+            elif text[i] == close:
+                depth -= 1
+                if depth == 0:
+                    r = text[pos[0] + 1:i]
+                    pos[0] = i + 1
+                    return r
+            i += 1
+        raise TranslateError("fromBase64 loop: unbalanced brackets")
+
+    def stmt():
+        ws()
+        if text.startswith("{", pos[0]):
+            inner = balanced("{", "}")
+            return ("block", split_statements(inner))
+        m = re.match(r"if\s*\(", text[pos[0]:])
+        if m:
+            pos[0] += m.end() - 1
+            cond = balanced("(", ")")
+            body = stmt()
+            ws()
+            if re.match(r"else\b", text[pos[0]:]):
+                raise TranslateError("fromBase64 loop: `else` in the per-byte tests is not translated")
+            return ("if", cond.strip(), body[1] if body[0] == "block" else [body])
+        k = text.find(";", pos[0])
+        if k < 0:
+            raise TranslateError(f"fromBase64 loop: statement without `;` near {text[pos[0]:pos[0] + 30]!r}")
+        r = text[pos[0]:k].strip()
+        pos[0] = k + 1
+        return ("simple", r)
+
+    res = []
+    while True:
+        ws()
+        if pos[0] >= n:
+            return res
+        res.append(stmt())
+
+
+def b64_preamble(pre, iv):
+    """Lean text of `b64Byte`: the statements between the loop head and the switch, interpreted in order.
+    Byte operands: `in[i]` (signed char), `(unsigned char)in[i]` (byte value) or a local bound to one of them."""
+    byte_rx = r"(?:\(\s*(?:unsigned\s+char|uchar|byte)\s*\)\s*)?in\s*\[\s*" + iv + r"\s*\]"
+    env = {}
+
+    def operand(e, what):
+        e = e.strip()
+        if e in env:
+            return env[e]
+        if re.fullmatch(byte_rx, e):
+            unsigned = e.replace(" ", "").startswith("(")
+            return "(b : Int)" if unsigned else "(if b < 128 then (b : Int) else (b : Int) - 256)"
+        raise TranslateError(f"fromBase64 {what}: unexpected operand {e!r}")
+
+    def cond(c):
+        m = need(re.fullmatch(r"(.+?)\s*(==|!=|>=|<=|>|<)\s*('(?:\\\\.|[^'])'|0[xX][0-9a-fA-F]+|\d+)", c.strip(), re.S), f"fromBase64 per-byte test {c!r}")
+        rel = {"==": "=", "!=": "≠", ">=": "≥", "<=": "≤", ">": ">", "<": "<"}[m.group(2)]
+        return f"decide ({operand(m.group(1), 'test')} {rel} {cexpr(m.group(3), {})})"
+
+    def seq(stmts, k, ind):
+        """Lean term for the statement list followed by continuation text k (None = falls out of the preamble)"""
+        if not stmts:
+            return k
+        st, rest = stmts[0], stmts[1:]
+        pad = "  " * ind
+        if st[0] == "block":
+            return seq(list(st[1]) + rest, k, ind)
+        if st[0] == "if":
+            thn = seq(list(st[2]), seq(rest, k, ind + 1), ind + 1)
+            els = seq(rest, k, ind + 1)
+            return f"if {cond(st[1])} then\n{pad}  {thn}\n{pad}else\n{pad}  {els}"
+        t = st[1]
+        if t == "break":
+            return ".ok .stop"
+        if re.fullmatch(r"return\s+String\s*\(\s*\)", t):
+            return ".ok .reject"
+        m = re.fullmatch(r"(?:const\s+)?(?:unsigned\s+char|uchar|char|byte)\s+(\w+)\s*=\s*(.+)", t, re.S)
+        tr = re.fullmatch(r"(?:(?:const\s+)?(?:unsigned\s+char|uchar|byte)\s+)?(\w+)\s*=\s*base64de\s*\[(.+)\]", t, re.S)
+        if tr:
+            name = tr.group(1)
+            idx = operand(tr.group(2), "table index")
+            env[name] = f"({name} : Int)"
+            inner = seq(rest, k, ind + 1)
+            return f"(rdTable base64de {idx}).bind fun {name} =>\n{pad}  {inner}"
+        if m:
+            name, e = m.group(1), m.group(2)
+            if re.match(r"unsigned|uchar|byte", t.replace("const", "").strip()):
+                # an unsigned local holds the byte value whatever the signedness of the initialiser
+                operand(e, "local")
+                env[name] = "(b : Int)"
+            else:
+                env[name] = operand(e, "local")
+            return seq(rest, k, ind)
+        raise TranslateError(f"fromBase64 loop: statement {t!r} in front of the switch is not translated")
+
+    stmts = split_statements(pre)
+    # the symbol value handed to the switch must be the table value `c`
+    if not re.search(r"\bc\s*=\s*base64de\s*\[", pre):
+        raise TranslateError("fromBase64 loop: no table read `c = base64de[..]` in front of the switch")
+    return "  " + seq(stmts, ".ok (.val c)", 1)
+
+
 # ---- String.cpp -------------------------------------------------------------------------------------
 def translate_string(repo, out):
     src = (repo / "src" / "String.cpp").read_text(errors="replace")
@@ -174,55 +307,61 @@ def translate_string(repo, out):
     if not vals:
         raise TranslateError("base64de table is empty")
     code = strip_comments(body)
-    mask = need(re.search(r"if\s*\(\s*inlen\s*&\s*(0x[0-9a-fA-F]+|\d+)\s*\)\s*return\s+String\(\)", code), "fromBase64 length test `inlen & m`").group(1)
-    g = need(re.search(r"if\s*\(\s*((?:\([^()]*\)\s*)?in\s*\[\s*i\s*\])\s*(>=|>)\s*('(?:\\.|[^'])'|0[xX][0-9a-fA-F]+|\d+)\s*\)\s*return\s+String\(\)", code),
-             "fromBase64 guard `if (<byte> > <limit>) return String()`")
-    guard_operand, gs = char_operand(g.group(1), "guard")
-    guard_rel = "≥" if g.group(2) == ">=" else ">"
-    guard_limit = cexpr(g.group(3), {})
-    ix = need(re.search(r"c\s*=\s*base64de\s*\[\s*((?:\([^()]*\)\s*)?in\s*\[\s*i\s*\])\s*\]\s*;", code), "fromBase64 table read `c = base64de[<index>]`")
-    index_operand, is_ = char_operand(ix.group(1), "table index")
-    invm = need(re.search(r"if\s*\(\s*c\s*==\s*(\d+)\s*\)", code), "fromBase64 invalid marker `if (c == N)`")
-    inv = invm.group(1)
-    pad = need(re.search(r"if\s*\(\s*in\s*\[\s*i\s*\]\s*==\s*('(?:\\.|[^'])')\s*\)\s*break", code), "fromBase64 pad test `if (in[i] == '=') break`").group(1)
-    # order of the tests inside the loop: guard, table read, marker test (the model relies on it)
-    if not (g.start() < ix.start() < invm.start()):
-        raise TranslateError("fromBase64: guard / table read / marker test are not in the expected order")
     out.append("/-! src/String.cpp : String::fromBase64 -/\n")
     out.append(f"/-- `base64de[]` ({len(vals)} entries) -/\ndef base64de : List Nat :=\n  {vals}\n")
-    out.append(f"/-- `if (inlen & m) return String();` -/\ndef base64LenMask : Nat := {cexpr(mask, {})}\n")
-    out.append(f"/-- the guard `if (<operand> {g.group(2)} <limit>) return String();` for the input byte `b` (operand read as {gs} char) -/\n"
-               f"def base64GuardRejects (b : Nat) : Bool := decide ({guard_operand} {guard_rel} {guard_limit})\n")
-    out.append(f"/-- index expression of `c = base64de[<index>]` for the input byte `b` ({is_} char) -/\n"
-               f"def base64Index (b : Nat) : Int := {index_operand}\n")
-    out.append(f"/-- `if (c == N)` : marker of a symbol outside the alphabet -/\ndef base64Invalid : Nat := {inv}\n")
-    out.append(f"/-- `if (in[i] == '=') break;` -/\ndef base64Pad : Nat := {cexpr(pad, {})}\n")
 
-    # the switch (i & m): case k: statements `out[j] = E;` / `out[j++] |= E;`
-    sw = need(re.search(r"switch\s*\(\s*i\s*&\s*(0x[0-9a-fA-F]+|\d+)\s*\)\s*\{(.*?)\}\s*\}", code, re.S), "fromBase64 `switch (i & m)`")
-    out.append(f"/-- selector of `switch (i & m)` -/\ndef b64Phase (i : Nat) : Nat := i &&& {cexpr(sw.group(1), {})}\n")
-    cases = re.findall(r"case\s+(\d+)\s*:(.*?)break\s*;", sw.group(2), re.S)
+    # length test: `if (inlen & M) return String();`  or  `if (inlen % K) ...` / `if (inlen % K != 0) ...`
+    lt = need(re.search(r"if\s*\(\s*\(?\s*inlen\s*(&|%)\s*(0x[0-9a-fA-F]+|\d+)\s*\)?\s*(?:!=\s*0\s*)?\)\s*return\s+String\(\)", code),
+              "fromBase64 length test `if (inlen & m) return String()`")
+    lop = "&&&" if lt.group(1) == "&" else "%"
+    out.append(f"/-- `if (inlen {lt.group(1)} {lt.group(2)}) return String();` -/\n"
+               f"def b64LenRejects (inlen : Nat) : Bool := decide (inlen {lop} {cexpr(lt.group(2), {})} ≠ 0)\n")
+
+    # capacity request for the result: `result.reserve(E)` with E over inlen / data.length()
+    rv = need(re.search(r"result\s*\.\s*reserve\s*\(((?:[^()]|\([^()]*\))*)\)\s*;", code), "fromBase64 `result.reserve(E)`").group(1)
+    rv = re.sub(r"data\s*\.\s*length\s*\(\s*\)", "inlen", rv)
+    out.append(f"/-- `result.reserve(E)`: number of bytes the output buffer is guaranteed to hold -/\n"
+               f"def b64Reserve (inlen : Nat) : Nat := {reserve_expr(rv)}\n")
+
+    # the loop: index variable, preamble (per-byte tests in SOURCE ORDER), switch
+    fo = need(re.search(r"for\s*\(([^;]*);\s*(\w+)\s*<\s*inlen\s*;\s*\+\+\s*(\w+)\s*\)\s*\{", code), "fromBase64 loop `for (..; i < inlen; ++i)`")
+    iv = fo.group(2)
+    if fo.group(3) != iv:
+        raise TranslateError("fromBase64 loop: compared and incremented variables differ")
+    swm = need(re.search(r"switch\s*\(\s*" + iv + r"\s*&\s*(0x[0-9a-fA-F]+|\d+)\s*\)\s*\{(.*?)\}\s*\}", code[fo.end():], re.S),
+               f"fromBase64 `switch ({iv} & m)`")
+    pre = code[fo.end():fo.end() + swm.start()]
+    out.append("/-- the per-byte tests in front of the switch, in source order: `break` = stop, `return String()` = reject,\n"
+               "    reaching the switch = val c; the table read is a checked read with the C index (an `Int`) -/\n"
+               "def b64Byte (b : Nat) : Res B64Sym :=\n" + b64_preamble(pre, iv) + "\n")
+
+    out.append(f"/-- selector of `switch ({iv} & m)` -/\ndef b64Phase (i : Nat) : Nat := i &&& {cexpr(swm.group(1), {})}\n")
+    cases = re.findall(r"case\s+(\d+)\s*:(.*?)break\s*;", swm.group(2), re.S)
     shape = {"0": ["set"], "1": ["or++", "set"], "2": ["or++", "set"], "3": ["or++"]}
     if [c for c, _ in cases] != ["0", "1", "2", "3"]:
         raise TranslateError(f"fromBase64 switch: expected cases 0,1,2,3, found {[c for c, _ in cases]}")
-    for c, body in cases:
-        stmts = [x.strip() for x in body.split(";") if x.strip()]
+    jv = None
+    for c, cbody in cases:
+        stmts = [x.strip() for x in cbody.split(";") if x.strip()]
         got = []
         for st in stmts:
-            m1 = re.match(r"out\s*\[\s*j\s*\]\s*=\s*(.*)$", st, re.S)
-            m2 = re.match(r"out\s*\[\s*j\s*\+\+\s*\]\s*\|=\s*(.*)$", st, re.S)
-            if m1:
-                got.append(("set", m1.group(1)))
-            elif m2:
-                got.append(("or++", m2.group(1)))
-            else:
+            m1 = re.match(r"out\s*\[\s*(\w+)\s*\]\s*=\s*(.*)$", st, re.S)
+            m2 = re.match(r"out\s*\[\s*(\w+)\s*\+\+\s*\]\s*\|=\s*(.*)$", st, re.S)
+            m = m1 or m2
+            if not m:
                 raise TranslateError(f"fromBase64 switch case {c}: unexpected statement {st!r}")
+            if jv is None:
+                jv = m.group(1)
+            if m.group(1) != jv:
+                raise TranslateError(f"fromBase64 switch: two different output indices {jv}, {m.group(1)}")
+            got.append(("set" if m1 else "or++", m.group(2)))
         if [k for k, _ in got] != shape[c]:
             raise TranslateError(f"fromBase64 switch case {c}: expected statements {shape[c]}, found {[k for k, _ in got]}")
         for k, e in got:
             name = f"b64Or{c}" if k == "or++" else f"b64Set{c}"
             what = f"`out[j++] |= E;` of case {c}" if k == "or++" else f"`out[j] = E;` of case {c}"
             out.append(f"/-- {what}, for the symbol value `c` -/\ndef {name} (c : Nat) : Nat := {cexpr(e, {'c': 'c'})}\n")
+    need(re.search(r"result\s*\.\s*resize\s*\(\s*" + (jv or "j") + r"\s*\)\s*;", code), f"fromBase64 `result.resize({jv})`")
 
     hbody = strip_comments(function_body(src, r"String\s+String::fromHex\s*\([^)]*\)\s*\{", "String::fromHex"))
     alpha = need(re.search(r'const\s+char\s*\*\s*hex\s*=\s*"([^"\\]*)"\s*;', hbody), "fromHex alphabet").group(1)
@@ -243,30 +382,25 @@ def translate_unicode(repo, out):
     ovals = [cexpr(x.strip(), {}) for x in strip_comments(offs).split(",") if x.strip()]
     out.append(f"def utf8Offsets : List Nat := [{', '.join(ovals)}]\n")
 
-    # length(char ch): if((ch & M) == V) return N; ... return D;
-    lbody = strip_comments(function_body(src, r"static\s+usize\s+length\s*\(\s*char\s+ch\s*\)\s*\{", "Unicode::length(char)"))
-    rest = lbody
-    chain = []
-    while True:
-        m = re.match(r"\s*if\s*\(\s*\(\s*ch\s*&\s*(0x[0-9a-fA-F]+|\d+)\s*\)\s*==\s*(0x[0-9a-fA-F]+|\d+)\s*\)\s*return\s+(\d+)\s*;", rest)
-        if not m:
-            break
-        mk, v, n = int(m.group(1), 0), int(m.group(2), 0), int(m.group(3))
-        if mk > 255 or v > 255:
-            raise TranslateError("Unicode::length: mask above 0xff on a (signed) char is not translated")
-        chain.append((mk, v, n))
-        rest = rest[m.end():]
-    d = need(re.match(r"\s*return\s+(\d+)\s*;\s*$", rest), "Unicode::length: final `return N;`").group(1)
-    if not chain:
-        raise TranslateError("Unicode::length: no `if((ch & M) == V) return N;` tests")
-    s = "/-- `Unicode::length(char ch)`; `ch & M` with M <= 0xff sees the byte value whatever the signedness of char -/\n"
-    s += "def utf8Length (b : Nat) : Nat :=\n  " + "\n  else ".join(f"if b &&& {mk} = {v} then {n}" for mk, v, n in chain) + f"\n  else {d}\n"
-    out.append(s)
+    # length(char ch): a pure function of one byte -> its 256 values, obtained by EXECUTING the current source
+    table = run_probe(repo)
+    out.append("/-- `Unicode::length((char)b)` for b = 0..255, printed by harness/codec_probe.cpp built from the current sources -/\n"
+               f"def utf8LengthTable : List Nat :=\n  {table}\n")
+    out.append("/-- `Unicode::length(char ch)`; a byte is its value modulo 256, the table has 256 entries -/\n"
+               "def utf8Length (b : Nat) : Nat := utf8LengthTable.getD (b % 256) 0\n")
 
-    # fromString first-byte test
+    # fromString first-byte test: `(*(const uchar*)ch & M) == 0`  or  `*(const uchar*)ch < P`
     fbody = strip_comments(function_body(src, r"static\s+uint32\s+fromString\s*\(\s*const\s+char\s*\*\s*ch\s*,\s*usize\s+len\s*\)\s*\{", "Unicode::fromString(const char*, usize)"))
-    m = need(re.search(r"if\s*\(\s*\(\s*\*\s*\(const\s+uchar\s*\*\)\s*ch\s*&\s*(0x[0-9a-fA-F]+|\d+)\s*\)\s*==\s*0\s*\)", fbody), "fromString: `if((*(const uchar*)ch & M) == 0)`")
-    out.append(f"/-- `fromString`: `if((*(const uchar*)ch & M) == 0) return *ch;` -/\ndef utf8AsciiMask : Nat := {int(m.group(1), 0)}\n")
+    fb = r"\*\s*\(\s*const\s+uchar\s*\*\s*\)\s*ch"
+    m1 = re.search(r"if\s*\(\s*\(\s*" + fb + r"\s*&\s*(0x[0-9a-fA-F]+|\d+)\s*\)\s*==\s*0\s*\)\s*return\s+" + fb, fbody)
+    m2 = re.search(r"if\s*\(\s*" + fb + r"\s*(<=|<)\s*(0x[0-9a-fA-F]+|\d+)\s*\)\s*return\s+" + fb, fbody)
+    if m1:
+        test = f"decide (b &&& {int(m1.group(1), 0)} = 0)"
+    elif m2:
+        test = f"decide (b {'≤' if m2.group(1) == '<=' else '<'} {int(m2.group(2), 0)})"
+    else:
+        raise TranslateError("cannot find fromString: `if(<first byte test>) return *(const uchar*)ch;`")
+    out.append(f"/-- `fromString`: the test of the single-byte fast path on the first byte `b` (read as uchar) -/\ndef utf8IsAscii (b : Nat) : Bool := {test}\n")
 
     # isValid(const char* ch, usize len): the continuation-byte tests of the switch(minLen)
     vbody = strip_comments(function_body(src, r"static\s+bool\s+isValid\s*\(\s*const\s+char\s*\*\s*ch\s*,\s*usize\s+len\s*\)\s*\{", "Unicode::isValid(const char*, usize)"))
@@ -333,9 +467,33 @@ def translate_unicode(repo, out):
         out.append(f"def encBytes{k} (ch : Nat) : List Nat := [{', '.join(b + ' % 256' for b in bs)}]\n")
 
 
+def run_probe(repo):
+    """build harness/codec_probe.cpp against the current sources and run it; returns the 256 values of Unicode::length"""
+    import subprocess
+    import tempfile
+    cxx = os.environ.get("CXX", "g++")
+    with tempfile.TemporaryDirectory(prefix="codec-probe-", dir=os.environ.get("TMPDIR", "/tmp")) as d:
+        exe = Path(d) / "probe"
+        p = subprocess.run([cxx, "-std=gnu++11", "-O0", f"-I{repo}/include", str(VERIF / "harness" / "codec_probe.cpp"), "-o", str(exe)],
+                           stdout=subprocess.PIPE, stderr=subprocess.STDOUT, text=True, errors="replace", timeout=300)
+        if p.returncode != 0:
+            raise TranslateError("probe harness/codec_probe.cpp does not compile against the current sources: " + p.stdout[-600:])
+        r = subprocess.run([str(exe)], stdout=subprocess.PIPE, stderr=subprocess.STDOUT, text=True, errors="replace", timeout=60)
+        if r.returncode != 0:
+            raise TranslateError("probe failed: " + r.stdout[-300:])
+    for line in r.stdout.splitlines():
+        t = line.split()
+        if t and t[0] == "length":
+            vals = [int(x) for x in t[1:]]
+            if len(vals) != 256:
+                raise TranslateError("probe: expected 256 values of Unicode::length")
+            return vals
+    raise TranslateError("probe printed no `length` line")
+
+
 def generate(repo):
     out = ["/- GENERATED by tools/gen_codec.py from the current sources of the repo -- do not edit. -/\n",
-           "namespace Nstd.Generated.Codec\n\n"]
+           "import Nstd.Codec.Mem\nnamespace Nstd.Generated.Codec\nopen Nstd.Codec\n\n"]
     translate_string(repo, out)
     translate_unicode(repo, out)
     out.append("\nend Nstd.Generated.Codec\n")
